@@ -662,6 +662,7 @@ struct Pre {
     score_ref: i64,
     lka: Option<u64>,
     stamps: (bool, bool, bool, u64), // weak, loss_degraded, cc_backing_off, cc_target_bps (written by the stamping loop only)
+    guard: (bool, u64, u64, bool), // stall_gated, latched since, recovery (rejoin dwell) since, silence_pulled
 }
 
 fn pre_of(c: &SrtlaConnection, now: u64) -> Pre {
@@ -685,6 +686,10 @@ fn pre_of(c: &SrtlaConnection, now: u64) -> Pre {
         lka: c.verif_last_keepalive_sent(),
         stamps: (c.weak, c.loss_degraded, c.cc_backing_off, c.cc_target_bps),
         gated: c.stall_gated,
+        guard: {
+            let p = c.verif_private();
+            (p.stall_gated, p.stall_latched_since_ms, p.stall_recovery_since_ms, p.silence_pulled)
+        },
         score_ref: if c.connected {
             c.window as i64 / (c.in_flight_packets as i64 + c.batch_sender.queued_count() as i64 + 1).max(1)
         } else {
@@ -1259,6 +1264,21 @@ impl SysComp {
                             mon.count("teardown-after-configured-timeout");
                         }
                     }
+                }
+            }
+            // C13: the latch and the rejoin dwell are judged at scheduling decisions only; between decisions
+            // nothing short of a link reset (tear-down / reconnect attempt) may release a latched uplink - not a
+            // registration reply on a registered link, not return traffic, not a housekeeping pass
+            if kind != Kind::Client && kind != Kind::Other && !(torn || attempt || regerr_here) {
+                let p = c.verif_private();
+                if pre[i].guard.1 != 0 {
+                    mon.count("latched-link-between-decisions");
+                    if p.stall_latched_since_ms == 0 || (pre[i].guard.0 && !p.stall_gated) {
+                        mon.fail("C13", "latch-released-between-decisions", format!("link {} was latched (since {}, gated={}) and `{}` - no scheduling decision, no link reset, guard still on - left it latched_since={} gated={}", c.conn_id, pre[i].guard.1, pre[i].guard.0, &op[..op.len().min(60)], p.stall_latched_since_ms, p.stall_gated));
+                    }
+                }
+                if pre[i].guard.2 != p.stall_recovery_since_ms && pre[i].guard.1 != 0 {
+                    mon.fail("C13", "dwell-moved-between-decisions", format!("link {}: rejoin dwell start {} -> {} by `{}` (no scheduling decision)", c.conn_id, pre[i].guard.2, p.stall_recovery_since_ms, &op[..op.len().min(60)]));
                 }
             }
             if torn || attempt {
